@@ -294,3 +294,67 @@ func HarnessC09Paging() {
 	}
 	verif.Assert(sameSpecs(got, unpaged[lo:hi]), "C09/paging/page-is-the-kth-block")
 }
+
+
+// C09 (filters on the object field): triples whose objects are predicates
+// (immutable, or temporal at an anchor of the pool) under predicates of their
+// own (immutable or temporal): isImmutable / isTemporal / latest with
+// Field=ObjectField look at the predicate in the object, not at the triple's
+// own predicate.
+func HarnessC09ObjectFilter() {
+	g, err := memory.NewStore().NewGraph(ctx, "?g")
+	verif.Assume(err == nil)
+	A := verif.Param("ANCHORS", 2)
+	n := 2 + verif.Choice("n", verif.Param("EXTRA", 0)+1)
+	var b1 []*spec
+	for i := 0; i < n; i++ {
+		sp := &spec{sb: 'a', pb: verif.Byte("b1.p"), ob: verif.Byte("b1.o")}
+		verif.Assume(verif.And(alpha(sp.pb), alpha(sp.ob)))
+		sp.pk = verif.Choice("pk", 2)
+		if sp.pk == 1 {
+			sp.pa = verif.Choice("pa", A)
+		}
+		sp.ok = 2 + verif.Choice("ok", 2)
+		if sp.ok == 3 {
+			sp.oa = verif.Choice("oa", A)
+		}
+		sp.t = sp.build()
+		b1 = append(b1, sp)
+	}
+	m := []int{5, 10}[verif.Choice("method", 2)] // TriplesForSubject, Triples
+	ops := []filter.Operation{filter.Latest, filter.IsImmutable, filter.IsTemporal}
+	fop := ops[verif.Choice("op", 3)]
+	lo := &storage.LookupOptions{FilterOptions: &filter.StorageOptions{Operation: fop, Field: filter.ObjectField}}
+	g.AddTriples(ctx, triples(b1))
+	base, _, err0, _ := c19ReadAll(g, m, b1[0], storage.DefaultLookup, b1)
+	got, _, err1, _ := c19ReadAll(g, m, b1[0], lo, b1)
+	verif.Reach("looked-up")
+	verif.Assert(err0 == nil && err1 == nil, "C09/object-filter/lookup-succeeds")
+	for _, x := range base {
+		want := true
+		switch fop {
+		case filter.IsImmutable:
+			want = x.ok == 2
+		case filter.IsTemporal:
+			want = x.ok == 3
+		default:
+			if x.ok != 3 {
+				want = false
+				break
+			}
+			for _, y := range base {
+				if y.ok == 3 && anchorPool[y.oa].After(anchorPool[x.oa]) {
+					want = verif.And(want, y.ob != x.ob)
+				}
+			}
+		}
+		if containsPtr(got, x) {
+			verif.Assert(want, "C09/object-filter/kept-only-if-selected")
+		} else {
+			verif.Assert(!want, "C09/object-filter/selected-is-kept")
+		}
+	}
+	for _, x := range got {
+		verif.Assert(containsPtr(base, x), "C09/object-filter/result-subset-of-default-result")
+	}
+}
